@@ -128,7 +128,9 @@ def main() -> None:
     m = {
         "version": 1,
         "setup_cmd": "cd lean && lake build " + " ".join(
-            [f"Props.{c['property_id']} drv_{c['property_id'].lower()}" for c in checks] + extra_targets),
+            [t for c in checks for t, f in ((f"Props.{c['property_id']}", f"lean/Props/{c['property_id']}.lean"),
+                                             (f"drv_{c['property_id'].lower()}", f"lean/Driver/{c['property_id']}Main.lean"))
+             if (ROOT / f).exists()] + extra_targets),
         "hooks": {"guard": "MOPTIPYAPPS_VERIF",
                   "enable": "no hooks are installed: checks drive the public API and the module-level kernels of /repo "
                             "from outside (numba env vars NUMBA_CACHE_DIR/NUMBA_BOUNDSCHECK only)",
